@@ -11,6 +11,12 @@ PROP = "C05"
 def gen_case(rng):
     data, nodes, lits = S.gen_typed_data(rng, n_iri=rng.randint(2, 4), n_bn=0, n_lit=rng.randint(1, 2), n_triples=rng.randint(4, 12))
     iri_nodes = [n for n in nodes if isinstance(n, URIRef)]
+    if rng.random() < 0.35:
+        # values whose text looks like regex group references or like placeholders: they are inserted verbatim
+        for _ in range(rng.randint(1, 3)):
+            awkward = Literal(rng.choice(["C:\\dir\\1", "\\g<0>", "a\\", "{$this}", "{?value}", "{?other} {$value}", "$0 {x}"]))
+            data.add((rng.choice(iri_nodes), URIRef(rng.choice(S.PREDS)), awkward))
+            lits = lits + [awkward]
     shapes = []
     for i in range(rng.randint(1, 3)):
         is_prop = rng.random() < 0.5
